@@ -97,6 +97,27 @@ def run_merge(base, local, remote, args, name, validate=True, snapshot=False, ex
         run["valid"] = not errs
         if errs:
             run["invalid_msg"] = errs[0]
+        # format 4.5 also requires cell ids to be unique in a notebook (the JSON schema cannot say so; nbformat's
+        # validate() checks it, or silently renames duplicates when asked to repair)
+        if merged.get("nbformat_minor", 0) >= 5:
+            ids = [c.get("id") for c in merged.get("cells", []) if "id" in c]
+            dups = sorted({i for i in ids if ids.count(i) > 1}, key=str)
+            run["uniqueids"] = not dups
+            if dups:
+                def idset(nb):
+                    return {c.get("id") for c in nb.get("cells", []) if "id" in c}
+                def idlist(nb):
+                    return [c.get("id") for c in nb.get("cells", []) if "id" in c]
+
+                def moved(d, side):
+                    """the cell with id d sits at another place among the cells base and that side have in common"""
+                    bl, sl = idlist(base), idlist(side)
+                    bc, sc = [i for i in bl if i in sl], [i for i in sl if i in bl]
+                    return d in bc and d in sc and bc.index(d) != sc.index(d)
+                bi, li, ri = idset(base), idset(local), idset(remote)
+                run["dup_classes"] = sorted({"same-id-introduced-on-both-sides" if (d not in bi and d in li and d in ri)
+                                             else "base-cell-moved-on-one-side" if (d in bi and (moved(d, local) or moved(d, remote)))
+                                             else "base-cell-id-duplicated" if d in bi else "other" for d in dups})
     if snapshot:
         run["after"] = [enc(to_plain(base)), enc(to_plain(local)), enc(to_plain(remote))]
     return run, merged, decisions
